@@ -58,6 +58,7 @@ Sixth round: C13.6 only the owner modules write running / cleanup links (whole-p
 Seventh round: C13.5 an event popped from the queue reaches the dispatch on its kind on every path (the limit is tested before the pop); the manager starts idle and is activated only by the first synchronisation.
 Eighth round: C13.2 the clean-up service removes the clean-up link last (no finish() reachable after the removal); C13.5 an activation is followed by a synchronisation on every path, also when the cache is empty.
 Ninth round: C13.3 the container tombstone is consumed on every normal exit of MonitorContainerCleanup.execute (returns True, also when the running link is gone).
+Tenth round: C13.7 a container found in clean-up does not consume the cache entry unless the entry names that container (it may be an older generation of an instance placed again; F29, repaired in /repo); C13.1 the link target may be read through a local or a renamed reader.
 Does NOT decide interleavings of events with clean-up completion.
 """
 
